@@ -39,6 +39,113 @@ def line(rng, lib, ec, sname=None, messy=False):
         S.LEAF = saved
 
 
+def overfill_base_field(rng, lib, ec, text):
+    """give one base-datatype field (or component) of the line a second component (subcomponent):
+    more children than a base datatype admits - STRICT must refuse, TOLERANT re-types"""
+    name = text[:3].upper()
+    if name not in lib.SEGMENTS or not lib.SEGMENTS[name][1]:
+        return text
+    rows = lib.SEGMENTS[name][1]
+    fields = text.split(ec['FIELD'])
+    cand = [i for i in range(1, len(fields)) if i - 1 < len(rows) and fields[i] and ec['REPETITION'] not in fields[i]]
+    rng.shuffle(cand)
+    base = lib.get_base_datatypes()
+    for i in cand:
+        ref = rows[i - 1][1]
+        if ref[0] == 'leaf' and ref[2] in base and ec['COMPONENT'] not in fields[i]:
+            fields[i] = fields[i] + ec['COMPONENT'] + 'x'
+            return ec['FIELD'].join(fields)
+        if ref[0] == 'sequence' and ref[1] and ref[1][0][1][0] == 'leaf' and ec['SUBCOMPONENT'] not in fields[i]:
+            comps = fields[i].split(ec['COMPONENT'])
+            if comps[0]:
+                comps[0] = comps[0] + ec['SUBCOMPONENT'] + 'y'
+                fields[i] = ec['COMPONENT'].join(comps)
+                return ec['FIELD'].join(fields)
+    return text
+
+
+def strict_api_refusals(run, rng, dist):
+    """STRICT construction through the API: cardinality overflow, foreign/unknown children, datatype
+    overrides and invalid or over-long base values must be refused; whatever is accepted must draw
+    no validator error other than a missing required child."""
+    from hl7apy.core import Segment, Field, Component, SubComponent
+    from hl7apy.exceptions import HL7apyException
+    for v in S.VERSIONS:
+        lib = hl7apy.load_library(v)
+        names = [s for s in sorted(lib.SEGMENTS) if S.ok_segment(lib, s) and s != 'MSH' and lib.SEGMENTS[s][1]]
+        for sname in rng.sample(names, 6):
+            rows = lib.SEGMENTS[sname][1]
+            row = rng.choice(rows)
+            fname, fref, (mn, mx) = row[0], row[1], row[2]
+            dist['api_probes'] = dist.get('api_probes', 0) + 1
+
+            def accepted(what, thunk, must_refuse, **data):
+                try:
+                    thunk()
+                    ok = True
+                except (HL7apyException, ValueError):
+                    ok = False
+                except Exception as ex:  # noqa
+                    run.fail('strict-api-crash', 'a STRICT API call raised a non-library exception', version=v,
+                             segment=sname, field=fname, what=what, exc=repr(ex))
+                    return None
+                if ok and must_refuse:
+                    run.fail('strict-admits-' + what, 'STRICT construction admits what it must refuse: ' + what,
+                             version=v, segment=sname, field=fname, **data)
+                return ok
+
+            # datatype override on a known field / component
+            for newdt in (None, 'ST' if fref[2] != 'ST' else 'NM'):
+                def t(newdt=newdt):
+                    f = Field(fname, version=v, validation_level=S.STRICT)
+                    f.datatype = newdt
+                if fref[2] not in (None, 'varies'):
+                    accepted('datatype-override', t, True, new_datatype=newdt, old_datatype=fref[2])
+
+            def ctor_override():
+                Field(fname, datatype='ST' if fref[2] != 'ST' else 'NM', version=v, validation_level=S.STRICT)
+            if fref[2] not in (None, 'varies'):
+                accepted('datatype-override', ctor_override, True, new_datatype='ctor', old_datatype=fref[2])
+            # cardinality overflow
+            if mx not in (-1, 0):
+                def over():
+                    seg = Segment(sname, version=v, validation_level=S.STRICT)
+                    for _ in range(mx + 1):
+                        seg.add(Field(fname, version=v, validation_level=S.STRICT))
+                accepted('cardinality-overflow', over, True, max=mx)
+            # foreign and unknown children
+            other = rng.choice([s for s in names if s != sname])
+
+            def foreign():
+                seg = Segment(sname, version=v, validation_level=S.STRICT)
+                seg.add(Field(lib.SEGMENTS[other][1][0][0], version=v, validation_level=S.STRICT))
+            accepted('foreign-child', foreign, True, foreign=lib.SEGMENTS[other][1][0][0])
+            # a base-datatype field takes one component only (whatever the field's version)
+            base_rows = [r for r in rows if r[1][0] == 'leaf' and r[1][2] in lib.get_base_datatypes()
+                         and r[2][1] != 0]
+            if base_rows:
+                br = rng.choice(base_rows)
+
+                def two_components():
+                    f = Field(br[0], version=v, validation_level=S.STRICT)
+                    f.value = 'a'
+                    c = Component(datatype=br[1][2], version=v, validation_level=S.STRICT)
+                    f.add(c)
+                accepted('second-component-in-base-field', two_components, True, base_field=br[0], datatype=br[1][2])
+            # over-long / invalid base values
+            def too_long(dt):
+                try:
+                    mxl = lib.get_base_datatypes()[dt]('x', validation_level=S.TOLERANT).max_length
+                except Exception:  # noqa
+                    return None
+                return 'X' * (mxl + 1) if mxl is not None else None
+            for dt, bad in (('ST', too_long('ST')), ('NM', 'abc'), ('DT', '20201301'), ('SI', '12345'),
+                            ('IS', too_long('IS'))):
+                if dt in lib.get_base_datatypes() and bad is not None:
+                    accepted('invalid-value', lambda dt=dt, bad=bad: SubComponent(datatype=dt, value=bad, version=v,
+                             validation_level=S.STRICT), True, datatype=dt, value=bad[:20])
+
+
 def report(el):
     try:
         rep = el.validate(return_errors=True)
@@ -71,6 +178,8 @@ def main(argv=None):
         corpus = ['QPD|a||q||beyond|b'] if v == '2.5' else []     # witness of the recorded finding F14 runs first
         for it in range(nlines + len(corpus)):
             text = corpus[it] if it < len(corpus) else line(rng, lib, ec, messy=rng.random() < .3)
+            if it >= len(corpus) and rng.random() < .25:
+                text = overfill_base_field(rng, lib, ec, text)
             dist['segments'] += 1
             cs = S.case_of(text, v, S.STRICT, ec)
             ct = S.case_of(text, v, S.TOLERANT, ec)
@@ -106,6 +215,7 @@ def main(argv=None):
                     run.fail('strict-accepted-draws-validator-error', 'an element accepted by STRICT construction draws a '
                              'validator error other than a missing required child', version=v, text=text, errors=bad[:4],
                              open_ended_beyond_table=beyond, cls='Segment')
+    strict_api_refusals(run, rng, dist)
     run.log('segments: %s, %d failures' % (dist, len(run.failures)))
     # ---- messages
     nmsg = 10 if not run.thorough else 60
